@@ -82,7 +82,7 @@ pub fn run(_sub: &str, opts: &Opts, w: &mut dyn Write) {
       let (fd, rd) = fetch_digests(p);
       let hs: Vec<String> = hist.iter().map(|(a, v)| format!("{}:{}", a, v)).collect();
       let dss: Vec<String> = ds.iter().map(|d| d.to_string()).collect();
-      writeln!(w, "c10 type={} rom={} ram={} hist={} | d={} io={} fd={} rd={}", t, r, m, hs.join(";"), dss.join(","), hex(&io), fd, rd).unwrap();
+      writeln!(w, "c10 type={} rom={} ram={} banks={} ramb={} hist={} | d={} io={} fd={} rd={}", t, r, m, rom_bank_count(r), header(t, r, m).get_ram_size_bytes(), hs.join(";"), dss.join(","), hex(&io), fd, rd).unwrap();
     }
   }
 }
